@@ -181,7 +181,19 @@ func genCommandCase(prop, tier string, r *rand.Rand) *Case {
 		c.Compare = &CompareCfg{Jobs: pick(r, []int{1, 1, 4}), MinWS: -1, PreferPtr: -1, DiffPage: true,
 			DiffShow: pick(r, []string{"all", "only-matches", "subset"}),
 			DiffSort: pick(r, []string{"written-name", "highest-similarity"}),
-			Notifier: "drain", NotifierStep: 100}
+			Notifier: "drain", NotifierStep: 100, WaitNotifier: true}
+		if r.IntN(6) == 0 {
+			// one file without any individual
+			empty := &Graph{Head: true, Trailer: true}
+			if r.IntN(2) == 0 {
+				empty.Families = append(empty.Families, &Family{Ptr: "F1"})
+			}
+			if r.IntN(2) == 0 {
+				c.Docs[0] = empty.Text()
+			} else {
+				c.Docs[1] = empty.Text()
+			}
+		}
 	default:
 		cmd.Command = "query"
 		cmd.Query = pick(r, exampleQueries)
